@@ -251,6 +251,35 @@ def run(ctx: core.Run):
         "sources": [p.name for p in dmg_src], "candidates": len(cands),
         "picked": [{"file": Path(p).name, "block": k, "mutation": h, "reader": c} for p, k, h, c in picked][:60]}
     ctx.extra["refusal_files"] = [Path(p).name for p, _ in refusals]
+    # ---- added after C20-r4-1/2/3: calls with NON-default options for every public entry point that has options
+    # (by reflection over signatures / documented **kwargs), to be followed by default calls on other documents; documents
+    # whose effect / gradient / pattern descriptors lack or distort an item the renderer reads; three-document sessions
+    # with two or more cross-document moves into one target
+    opt_files = (layered or small[:1]) + [p for p in pool if p.suffix == ".psd"][:2]
+    opt_steps = c20_pool.option_steps(opt_files, rng, 70 if quick else None)
+    steps += opt_steps
+    ctx.extra["option_calls"] = sorted({"%s.%s(%s=...)" % (a[1], a[2], ",".join(a[3])) for a in
+                                        (json.loads(st[1]) for st in opt_steps)})
+    fx_src = []
+    for p in sorted(FIX.rglob("*.psd"), key=lambda p: (p.stat().st_size, str(p))):
+        if p.stat().st_size > (300000 if quick else 1500000):
+            continue
+        raw = p.read_bytes()
+        if any(t in raw for t in (b"lfx2", b"lrFX", b"GdFl", b"PtFl", b"vstk", b"vscg", b"SoCo")):
+            try:
+                w, h = int.from_bytes(raw[18:22], "big"), int.from_bytes(raw[14:18], "big")
+            except Exception:  # noqa
+                continue
+            if w * h <= 400 * 400:
+                fx_src.append(p)
+    dvs = c20_pool.descriptor_variants(fx_src, scratch, rng, 64 if quick else 600, src)
+    steps += [("composite", str(p)) for p, _ in dvs]
+    ctx.extra["descriptor_variants"] = {"sources": [p.name for p in fx_src][:40], "made": len(dvs),
+                                        "what": [w for _, w in dvs][:80]}
+    xdoc_src = _pattern_fixtures(limit=(6 if quick else 16))
+    xdoc = c20_pool.cross_document_scripts(xdoc_src, rng, 6 if quick else 60)
+    steps += xdoc
+    ctx.extra["cross_document_scripts"] = len(xdoc)
     # alone: one fresh interpreter per step
     phase["pool"] = round(time.time() - t_phase, 1); t_phase = time.time()
     alone = run_alone(steps)
@@ -265,6 +294,21 @@ def run(ctx: core.Run):
                          {"step": _short_step(st), "fresh": r["results"][0], "forked": alone[steps.index(st)]["results"][0]})
     phase["alone"] = round(time.time() - t_phase, 1); t_phase = time.time()
     alone_res = {tuple(st): r["results"][0] for st, r in zip(steps, alone)}
+    # cross-document sessions carry their own oracle (frame law + no object shared between documents)
+    seen_x = set()
+    for st, r in zip(steps, alone):
+        res = r["results"][0]
+        if st[0] == "xdoc_script":
+            ctx.hist("cross_document_sessions", "problem" if ":XDOC:" in res else res.split(":")[1][:40])
+        if st[0] == "xdoc_script" and ":XDOC:" in res:
+            prob = json.loads(res.split(":XDOC:", 1)[1])
+            sig = "C20/cross-document/" + prob["kind"]
+            if sig in seen_x:
+                continue
+            seen_x.add(sig)
+            ctx.fail(sig, "after cross-document moves " + prob["what"],
+                     _portable({"step": list(st), "history": []}), prob["what"],
+                     "documents that took no part in a move are unchanged; no mutable object is held by two documents")
     changed_alone = sorted({c for r in alone for c in r["changed_cells"]})
     # a step that, ALONE in a fresh interpreter, leaves process-wide state changed is a suspect history all by itself:
     # replay the whole pool after it in one interpreter and compare every result with the alone result
@@ -277,10 +321,19 @@ def run(ctx: core.Run):
     directed_fail = set()
     for st, leak in suspects:
         rest = [x for x in steps if x != st]
-        r = run_session([list(st)] + [list(x) for x in rest], timeout=1800)
-        bad = [(x, res) for x, res in zip(rest, r["results"][1:]) if res != alone_res[tuple(x)]]
+        # ... in front of ITSELF first (the state it leaves may be one only the same kind of session consumes: a shared
+        # random stream, a cache keyed by something of its own), then in front of the whole pool
+        r = run_session([list(st), list(st)] + [list(x) for x in rest], timeout=1800)
+        bad = [(x, res) for x, res in zip(rest, r["results"][2:]) if res != alone_res[tuple(x)]]
         ctx.hist("leaky_steps_followed_up", st[0])
-        if not bad:
+        if r["results"][1] != alone_res[tuple(st)]:
+            directed_fail.add(tuple(st))
+            ctx.fail(f"C20/history-dependent/{st[0]}/{_tag(st)}",
+                     f"{st[0]} gives a different result when the same session ran before it in the same interpreter "
+                     f"(it leaves {', '.join(leak)} changed) than alone in a fresh interpreter",
+                     _portable({"step": list(st), "history": [list(st)], "state_left_changed": list(leak)}),
+                     r["results"][1], alone_res[tuple(st)])
+        elif not bad:
             ctx.disagree("a session leaves process-wide state changed (no session of the pool was seen to depend on it)",
                          {"step": _short_step(st), "changed": list(leak)})
         for x, res in bad[:3]:
@@ -376,14 +429,25 @@ def run(ctx: core.Run):
         "snapshotted (psd_tools globals incl. plain values and function identities; attrs validators, numpy error state and "
         "print options, warnings filters, logging.disable and logger levels, recursion limit, sys.path, os.environ, cwd, "
         "locale, decimal context, gc, random states, builtins, PIL limits); a step that leaves anything changed when run alone "
-        "is replayed in front of the whole pool." % n_hist
+        "is replayed in front of itself and of the whole pool. Since round 4 the pool also holds: a call with ONE non-default option for every "
+        "public entry point of PSDImage / Layer that has options (open, save, new, frompil, composite, topil, numpy; options "
+        "from the signature, from the documented **kwargs and from the low-level reader / writer signatures; values by the "
+        "type of the default) - followed in the histories by the default calls on the other documents; composites of copies "
+        "of every small fixture with effect / fill / stroke descriptors in which one item the renderer reads (Key.X mentions "
+        "of composite/*.py and api/effects.py) is deleted, negative, huge, flipped or emptied; sessions with three documents "
+        "and >= 2 cross-document moves of pattern / effect layers into one target, checked after every move for the frame "
+        "law (a document that took no part is byte-identical) and for ownership (no mutable object reachable from two "
+        "documents). Snapshots digest module- / class-level objects of unknown type by pickle / __getstate__ / getstate() / "
+        "get_state()." % n_hist
     )
     ctx.extra["terms"] = terms_info
     ctx.extra["session_steps"] = len(steps)
     ctx.extra["histories"] = n_hist
     ctx.model_coverage = {
         "modelled": ["footprint table of every module-level/class-level name that is a mutable object or is assigned / "
-                     "augmented / mutated from a function body (global, module attribute, class attribute, container)",
+                     "augmented / mutated from a function body (global, module attribute, class attribute, container; through "
+                     "local aliases and parameter defaults too), or is an object of unknown type built by a call at import and "
+                     "used by a function (moduleObject)",
                      "table of the sites that flip process-wide switches of foreign modules (run-time / import-time / restored)",
                      "descriptor key codec"],
         "not_modelled": ["C-level state in NumPy/PIL/zlib", "the body of every operation (only its footprint)"],
@@ -464,11 +528,27 @@ import attr
 from PIL import Image
 from decimal import getcontext
 from . import b
-from .b import Reg, TABLE
+from .b import Reg, TABLE, TABLE2
+import re, random
 _count = 0
 _flag = False
 _cache = {}
 _tmp = {}
+_opts = {"a": 1}
+_opts2 = {"a": 1}
+_deflt = {"a": 1}
+_copied = {"a": 1}
+_gen = np.random.RandomState(0)
+_gen2 = random.Random()
+_pat = re.compile("x")
+_log = logging.getLogger(__name__)
+def _mk(p):
+    return re.compile(p.encode("ascii"))
+_pat2 = _mk("y")
+class Inst:
+    def __init__(self):
+        self.n = 0
+_inst = Inst()
 class K:
     shared = []
     limit = 3
@@ -492,6 +572,31 @@ def other():
     setattr(b, "MODE", "x")
     TABLE["k"] = 1
     Reg.items.add(2)
+def alias_update(**kw):
+    options = _opts
+    options.update(kw)
+    return options
+def alias_item(k):
+    t = TABLE2[k] if k else _opts2
+    t["z"] = 1
+def alias_default(o=_deflt):
+    o.setdefault("q", 2)
+def not_alias(**kw):
+    c = dict(_copied)
+    c.update(kw)
+    d = _copied.copy()
+    d["x"] = 1
+    return c, d, _copied
+def draw():
+    return _gen.rand()
+def leak():
+    return _gen2
+def touch():
+    _inst.n += 1
+    return _inst.n
+def pure(s):
+    _log.debug("x")
+    return _pat.match(s), _pat2.match(s)
 def local_shadow():
     _tmp = {}
     _tmp["x"] = 1
@@ -521,6 +626,7 @@ warnings.filterwarnings("ignore", module="x")
 LEVEL = 1
 MODE = "a"
 TABLE = {}
+TABLE2 = {"k": []}
 class Reg:
     items = set()
 def get():
@@ -544,7 +650,13 @@ def _extractor_selftest(ctx):
         dirty = sorted(c.key for c in cells if c.writers and c.readers)
         want_dirty = sorted(["psd_tools.a:_count", "psd_tools.a:_flag", "psd_tools.a:_cache", "psd_tools.a:K.shared",
                              "psd_tools.a:K.limit", "psd_tools.b:LEVEL", "psd_tools.b:MODE", "psd_tools.b:TABLE",
-                             "psd_tools.b:Reg.items"])
+                             "psd_tools.b:Reg.items",
+                             # aliases: a local bound to module-level state and changed in place
+                             "psd_tools.a:_opts", "psd_tools.a:_opts2", "psd_tools.b:TABLE2", "psd_tools.a:_deflt",
+                             # module-level objects of unknown mutable type that functions use
+                             "psd_tools.a:_gen", "psd_tools.a:_gen2", "psd_tools.a:_inst"])
+        # ... while a copy (`dict(X)`, `X.copy()`), a compiled pattern (also through a helper) and a logger are not cells
+        not_cells = [c.key for c in cells if c.key.split(":")[1] in ("_copied", "_pat", "_pat2", "_log") and c.writers]
         live = sorted({w["callee"] for w in sw if w["atRuntime"] and not w["scoped"]})
         want_live = sorted(["attr.validators.set_disabled", "logging.disable", "warnings.simplefilter", "numpy.seterr",
                             "sys.setrecursionlimit", "os.environ[]", "PIL.Image.MAX_IMAGE_PIXELS", "decimal.getcontext().prec",
@@ -554,13 +666,13 @@ def _extractor_selftest(ctx):
         imp = sorted({w["callee"] for w in sw if not w["atRuntime"]})
         tmp_written = [c.key for c in cells if c.key == "psd_tools.a:_tmp" and c.writers]
         ok = dirty == want_dirty and live == want_live and scoped == want_scoped and imp == ["warnings.filterwarnings"] \
-            and not tmp_written
+            and not tmp_written and not not_cells
         ctx.corr_cases += 1
         ctx.hist("extractor_selftest", "ok" if ok else "MISMATCH")
         if not ok:
             ctx.disagree("the footprint extractor does not see the process-wide state planted in its self-test tree",
                          {"dirty": dirty, "want_dirty": want_dirty, "live_switches": live, "want_live": want_live,
-                          "scoped": scoped, "import_time": imp, "shadowed_local_counted": tmp_written})
+                          "scoped": scoped, "import_time": imp, "shadowed_local_counted": tmp_written, "immutable_or_copied_counted": not_cells})
     finally:
         shutil.rmtree(d, True)
 
